@@ -291,6 +291,21 @@ impl Node {
     }
 }
 
+impl Drop for Node {
+    /// Free the descendants of this node without recursing once per nesting level.
+    fn drop(&mut self) {
+        let mut pending = self.children.take();
+
+        while let Some(NodeRef(node)) = pending.pop() {
+            // If this is the last reference to the node, take its children before it is freed so that
+            // freeing it does not recurse. Otherwise the node stays alive and keeps its children.
+            if let Some(node) = Rc::into_inner(node) {
+                pending.append(&mut node.children.take());
+            }
+        }
+    }
+}
+
 /// The data of a `Node`.
 #[derive(Debug, Clone)]
 #[allow(clippy::exhaustive_enums)]
@@ -476,35 +491,53 @@ impl NodeRef {
         Children::new(self.first_child())
     }
 
+    /// Serialize this node and its descendants.
+    ///
+    /// The tree is walked with an explicit stack rather than by recursion, because the nesting of
+    /// a document is only limited by its size.
     pub(crate) fn serialize<S>(&self, serializer: &mut S) -> io::Result<()>
     where
         S: Serializer,
     {
-        match self.data() {
-            NodeData::Element(data) => {
-                serializer.start_elem(
-                    data.name.clone(),
-                    data.attrs.borrow().iter().map(|attr| (&attr.name, &*attr.value)),
-                )?;
-
-                for child in self.children() {
-                    child.serialize(serializer)?;
-                }
-
-                serializer.end_elem(data.name.clone())?;
-
-                Ok(())
-            }
-            NodeData::Document => {
-                for child in self.children() {
-                    child.serialize(serializer)?;
-                }
-
-                Ok(())
-            }
-            NodeData::Text(text) => serializer.write_text(&text.borrow()),
-            _ => Ok(()),
+        enum Step {
+            /// Write the start of this node and schedule its children.
+            Enter(NodeRef),
+            /// Write the end tag of this element.
+            Exit(NodeRef),
         }
+
+        let mut stack = vec![Step::Enter(self.clone())];
+
+        while let Some(step) = stack.pop() {
+            match step {
+                Step::Enter(node) => match node.data() {
+                    NodeData::Element(data) => {
+                        serializer.start_elem(
+                            data.name.clone(),
+                            data.attrs.borrow().iter().map(|attr| (&attr.name, &*attr.value)),
+                        )?;
+
+                        stack.push(Step::Exit(node.clone()));
+                        // The last step pushed is the first one handled.
+                        let children = node.children().collect::<Vec<_>>();
+                        stack.extend(children.into_iter().rev().map(Step::Enter));
+                    }
+                    NodeData::Document => {
+                        let children = node.children().collect::<Vec<_>>();
+                        stack.extend(children.into_iter().rev().map(Step::Enter));
+                    }
+                    NodeData::Text(text) => serializer.write_text(&text.borrow())?,
+                    _ => {}
+                },
+                Step::Exit(node) => {
+                    if let NodeData::Element(data) = node.data() {
+                        serializer.end_elem(data.name.clone())?;
+                    }
+                }
+            }
+        }
+
+        Ok(())
     }
 }
 
